@@ -6,7 +6,7 @@
 //! every requested suite passed.
 
 use refz80::testbus::FlatBus;
-use refz80::{RefZ80, StepKind};
+use refz80::{RefBus, RefZ80, StepKind};
 use std::io::Read;
 
 const ZEXALL_PATH: &str = "/repo/rustzx-z80/tests/integration/assets/zexall.com";
@@ -17,11 +17,16 @@ struct SuiteResult {
     name: String,
     tests: usize,
     failed: Vec<String>,
+    /// tests the suite itself declined to run (only tolerated where documented)
+    skipped: Vec<String>,
     /// a structural problem (missing summary line, wrong test count, runaway ...)
     error: Option<String>,
 }
 
 impl SuiteResult {
+    fn broken(name: String, error: String) -> Self {
+        SuiteResult { name, tests: 0, failed: vec![], skipped: vec![], error: Some(error) }
+    }
     fn ok(&self) -> bool {
         self.failed.is_empty() && self.error.is_none() && self.tests > 0
     }
@@ -34,7 +39,7 @@ fn run_zexall(verbose: bool) -> SuiteResult {
     let image = match std::fs::read(ZEXALL_PATH) {
         Ok(d) => d,
         Err(e) => {
-            return SuiteResult { name, tests: 0, failed: vec![], error: Some(format!("{ZEXALL_PATH}: {e}")) }
+            return SuiteResult::broken(name, format!("{ZEXALL_PATH}: {e}"));
         }
     };
     let mut bus = FlatBus::new();
@@ -117,7 +122,7 @@ fn run_zexall(verbose: bool) -> SuiteResult {
     if verbose {
         println!("\n[zexall: {} T-states]", bus.t);
     }
-    SuiteResult { name, tests, failed, error }
+    SuiteResult { name, tests, failed, skipped: vec![], error }
 }
 
 // ------------------------------------------------------------------------------------ Spectrum tapes
@@ -162,27 +167,94 @@ fn tap_code_block(tap: &[u8]) -> Result<(u16, Vec<u8>), String> {
     Err("no CODE block found".to_string())
 }
 
+/// FlatBus plus an optional periodic frame interrupt (INT low for 32 T-states every `frame` T-states).
+struct FrameBus {
+    flat: FlatBus,
+    /// 0 = no interrupts at all
+    frame: u64,
+    /// a Kempston interface answering 0x00 on port 0x1F (needed by z80bltst's INIR rows)
+    kempston: bool,
+}
+
+impl RefBus for FrameBus {
+    #[inline]
+    fn m1(&mut self, addr: u16) -> u8 {
+        self.flat.m1(addr)
+    }
+    #[inline]
+    fn mem_read(&mut self, addr: u16) -> u8 {
+        self.flat.mem_read(addr)
+    }
+    #[inline]
+    fn mem_write(&mut self, addr: u16, val: u8) {
+        self.flat.mem_write(addr, val)
+    }
+    #[inline]
+    fn delay(&mut self, addr: u16, n: u8) {
+        self.flat.delay(addr, n)
+    }
+    #[inline]
+    fn io_read(&mut self, port: u16) -> u8 {
+        let v = self.flat.io_read(port);
+        if self.kempston && port & 0xFF == 0x1F {
+            0x00
+        } else {
+            v
+        }
+    }
+    #[inline]
+    fn io_write(&mut self, port: u16, val: u8) {
+        self.flat.io_write(port, val)
+    }
+    #[inline]
+    fn int_ack(&mut self) -> u8 {
+        self.flat.int_ack()
+    }
+    #[inline]
+    fn idle(&mut self, n: u8) {
+        self.flat.idle(n)
+    }
+    #[inline]
+    fn int_line(&mut self) -> bool {
+        self.frame != 0 && self.flat.t % self.frame < 32
+    }
+    #[inline]
+    fn nmi_line(&mut self) -> bool {
+        false
+    }
+}
+
 /// Runs a Spectrum test program that prints through RST 10h; returns the printed text.
-fn run_spectrum_program(tape: &str, verbose: bool, limit: u64) -> Result<(String, u64), String> {
+/// `frame` = length of a video frame in T-states for the periodic interrupt (0 = no interrupts);
+/// `extra_ret_traps` = further ROM entry points replaced by a bare RET.
+fn run_spectrum_program(
+    tape: &str,
+    verbose: bool,
+    limit: u64,
+    frame: u64,
+    extra_ret_traps: &[u16],
+) -> Result<(String, u64), String> {
     let tap = gunzip(&format!("{TAPE_DIR}/{tape}.tap.gz"))?;
     let (start, code) = tap_code_block(&tap)?;
     let rom = std::fs::read(ROM48_PATH).map_err(|e| format!("{ROM48_PATH}: {e}"))?;
     if rom.len() != 0x4000 {
         return Err("48.rom is not 16K".to_string());
     }
-    let mut bus = FlatBus::new();
-    bus.load(0x0000, &rom);
-    bus.load(start, &code);
-    bus.rom_protect = true;
-    bus.io_even = 0xBF;
-    bus.io_odd = 0xFF;
+    let mut flat = FlatBus::new();
+    flat.load(0x0000, &rom);
+    flat.load(start, &code);
+    flat.rom_protect = true;
+    flat.io_even = 0xBF;
+    flat.io_odd = 0xFF;
+    flat.int_vector = 0xFF;
+    let mut bus = FrameBus { flat, frame, kempston: frame != 0 };
 
     const EXIT: u16 = 0x0000; // trapped return address of the whole program
     let mut cpu = RefZ80::new();
     cpu.sp = 0x7FF0;
     cpu.sp = cpu.sp.wrapping_sub(2);
-    bus.mem[cpu.sp as usize] = (EXIT & 0xFF) as u8;
-    bus.mem[cpu.sp as usize + 1] = (EXIT >> 8) as u8;
+    bus.flat.mem[cpu.sp as usize] = (EXIT & 0xFF) as u8;
+    bus.flat.mem[cpu.sp as usize + 1] = (EXIT >> 8) as u8;
     cpu.pc = start;
     cpu.iy = 0x5C3A;
     cpu.im = 1;
@@ -194,7 +266,7 @@ fn run_spectrum_program(tape: &str, verbose: bool, limit: u64) -> Result<(String
         if cpu.pending_prefix == 0 {
             match cpu.pc {
                 EXIT => break,
-                0x1601 | 0x0010 => {
+                pc if pc == 0x1601 || pc == 0x0010 || extra_ret_traps.contains(&pc) => {
                     if cpu.pc == 0x0010 {
                         let a = cpu.a;
                         if skip > 0 {
@@ -214,8 +286,8 @@ fn run_spectrum_program(tape: &str, verbose: bool, limit: u64) -> Result<(String
                         }
                     }
                     // RET
-                    let l = bus.peek(cpu.sp);
-                    let h = bus.peek(cpu.sp.wrapping_add(1));
+                    let l = bus.flat.peek(cpu.sp);
+                    let h = bus.flat.peek(cpu.sp.wrapping_add(1));
                     cpu.sp = cpu.sp.wrapping_add(2);
                     cpu.pc = l as u16 | (h as u16) << 8;
                     continue;
@@ -224,8 +296,8 @@ fn run_spectrum_program(tape: &str, verbose: bool, limit: u64) -> Result<(String
             }
         }
         let k = cpu.step(&mut bus);
-        debug_assert!(k == StepKind::Instruction || k == StepKind::Prefix);
-        if bus.t > limit {
+        debug_assert!(frame != 0 || k == StepKind::Instruction || k == StepKind::Prefix);
+        if bus.flat.t > limit {
             if verbose {
                 println!("{out}");
             }
@@ -234,21 +306,25 @@ fn run_spectrum_program(tape: &str, verbose: bool, limit: u64) -> Result<(String
     }
     if verbose {
         println!("{out}");
-        println!("[{tape}: {} T-states]", bus.t);
+        println!("[{tape}: {} T-states]", bus.flat.t);
     }
-    Ok((out, bus.t))
+    Ok((out, bus.flat.t))
 }
 
 /// z80test 1.x output: one line "NNN NAME ... OK|Skipped|FAILED" per test (a failure is followed
 /// by a "CRC:... Expected:..." line) and a final "Result: ..." line.
+///
+/// The suite itself skips the SCF/CCF variants written for other silicon ("(NEC)", "(ST)"): those
+/// are reported as skipped; a skip of anything else is a failure.
 fn run_z80test(tape: &str, verbose: bool) -> SuiteResult {
     let name = tape.to_string();
-    let (out, _) = match run_spectrum_program(tape, verbose, 40_000_000_000) {
+    let (out, _) = match run_spectrum_program(tape, verbose, 40_000_000_000, 0, &[]) {
         Ok(v) => v,
-        Err(e) => return SuiteResult { name, tests: 0, failed: vec![], error: Some(e) },
+        Err(e) => return SuiteResult::broken(name, e),
     };
     let mut tests = 0;
     let mut failed = Vec::new();
+    let mut skipped = Vec::new();
     let mut result_line = None;
     let lines: Vec<&str> = out.split('\n').map(|l| l.trim()).collect();
     let mut i = 0;
@@ -264,10 +340,13 @@ fn run_z80test(tape: &str, verbose: bool) -> SuiteResult {
             continue;
         }
         tests += 1;
-        if line.ends_with("OK") {
+        if line.ends_with(" OK") {
             continue;
         }
-        // "Skipped" counts as a failure too: nothing may be left unverified
+        if line.ends_with(" Skipped") && (line.contains("(NEC)") || line.contains("(ST)")) {
+            skipped.push(line.to_string());
+            continue;
+        }
         let mut msg = line.to_string();
         if i < lines.len() && lines[i].contains("CRC") {
             msg.push_str(" | ");
@@ -285,31 +364,50 @@ fn run_z80test(tape: &str, verbose: bool) -> SuiteResult {
             }
         }
     }
-    if error.is_none() && tests < 100 {
-        error = Some(format!("only {tests} tests seen"));
+    if error.is_none() && tests != 160 {
+        error = Some(format!("expected 160 tests, saw {tests}"));
     }
-    SuiteResult { name, tests, failed, error }
+    SuiteResult { name, tests, failed, skipped, error }
 }
 
-/// Z80 Block Flags Test (MrKWatkins): not part of the required suites, free-form output.
+/// Z80 Block Flags Test v5.0 (Ped7g / MrKWatkins, after David Banks' research): extra suite, not part
+/// of `all`.  It interrupts repeating block instructions with IM2 frame interrupts and prints rows
+/// `NAME F: gg=ee gg=ee gg=ee gg=ee` (a mismatch is printed as `gg=<backspace>!ee`).  The trailing
+/// "HF vs B" bitmap log has no built-in expectation and is ignored.
 fn run_z80bltst(verbose: bool) -> SuiteResult {
     let name = "z80bltst".to_string();
-    let (out, _) = match run_spectrum_program("z80bltst", verbose, 40_000_000_000) {
+    let (out, _) = match run_spectrum_program("z80bltst", verbose, 2_000_000_000, 69888, &[0x0DAF]) {
         Ok(v) => v,
-        Err(e) => return SuiteResult { name, tests: 0, failed: vec![], error: Some(e) },
+        Err(e) => return SuiteResult::broken(name, e),
     };
     let mut tests = 0;
     let mut failed = Vec::new();
-    for line in out.split('\n').map(|l| l.trim()) {
+    let mut error = None;
+    let mut row_name = String::new();
+    for line in out.split('\n') {
         let low = line.to_ascii_lowercase();
-        if low.contains("pass") || low.ends_with("ok") {
+        if low.contains("unexpected") || low.contains("failed") {
+            error = Some(line.trim().to_string());
+            continue;
+        }
+        let Some(pos) = line.find(" F:") else { continue };
+        let label = line[..pos].trim();
+        if !label.starts_with('.') {
+            row_name = label.to_string();
+        }
+        for (col, tok) in line[pos + 3..].split_whitespace().enumerate() {
             tests += 1;
-        } else if low.contains("fail") || low.contains("error") {
-            tests += 1;
-            failed.push(line.to_string());
+            let hex: String = tok.chars().filter(|c| c.is_ascii_hexdigit()).collect();
+            let good = hex.len() == 4 && hex[..2] == hex[2..] && !tok.contains('!');
+            if !good {
+                failed.push(format!("{row_name} {label} column {col}: {tok}"));
+            }
         }
     }
-    SuiteResult { name, tests, failed, error: None }
+    if error.is_none() && tests != 60 {
+        error = Some(format!("expected 15 rows of 4 results, saw {tests} results"));
+    }
+    SuiteResult { name, tests, failed, skipped: vec![], error }
 }
 
 fn main() {
@@ -338,6 +436,9 @@ fn main() {
         println!("ORACLE {} tests={} failed={}", res.name, res.tests, res.failed.len());
         for f in &res.failed {
             println!("  FAILED {f}");
+        }
+        for f in &res.skipped {
+            println!("  SKIPPED-BY-SUITE {f}");
         }
         if let Some(e) = &res.error {
             println!("  ERROR {e}");
